@@ -597,6 +597,11 @@ impl World {
         let r = Pin::new(&mut h.fut).poll(&mut cx);
         self.win_poll = false;
         if r.is_pending() { self.waiting[i] = true; } else { self.waiting[i] = false; }
+        // no lost wake-up: a task that goes to sleep while its response is already there must have
+        // a wake-up pending (the receive side woke it during this poll)
+        if r.is_pending() && self.md.verif_slot(i).0 == 6 && !SCHEDULED.with(|s| s.borrow()[i & 15]) {
+            self.oracle.push(format!("lost-wake: the poll of slot {} went to sleep although the response is there (RxDone) and no wake-up is pending", i));
+        }
         let rt_after = if expired && retries > 0 { retries - 1 } else { retries };
         if windowed {
             match self.poll_was.take() {
